@@ -1,6 +1,6 @@
 //! C16 — multi-record parsers equal repeated single-record parsing; tls_parser == parse_tls_plaintext.
 
-use crate::ctx::{hex_short, lc, Case, Ctx};
+use crate::ctx::{hex_short, lc, Case, Ctx, Tier};
 use crate::gen;
 use crate::oracle::classify;
 use crate::refenc::{self, W};
@@ -8,7 +8,7 @@ use crate::visit::veq;
 use serde_json::json;
 use tls_parser::*;
 
-pub const RULE: &str = "concatenations of 0..600 reference-encoded valid TLS (resp. DTLS) records followed by nothing / a strict prefix of a record / an oversized header / an unknown content type / garbage / a record with malformed content, and byte-mutated variants; oracle = explicit loop over the single-record parser on the real crate (differential). tls_parser vs parse_tls_plaintext compared (value, remainder address, error kind, error position) on the same inputs. distinct_nontrivial = distinct (family, #records, tail kind, loop outcome, many outcome) tuples";
+pub const RULE: &str = "concatenations of 0..600 reference-encoded valid TLS (resp. DTLS) records followed by nothing / a strict prefix of a record / an oversized header / an unknown content type / garbage / a record with malformed content, and byte-mutated variants; oracle = explicit loop over the single-record parser on the real crate (differential). tls_parser vs parse_tls_plaintext compared (value, remainder address, error kind, error position) on the same inputs. volume buffers of 1 MiB..64 MiB (thorough: up to 1 GiB, lazily mapped) made only of consecutive valid records (TLS application data; DTLS one handshake fragment per record) (maximum-size or mixed sizes) crossing 2^20..2^30 and 10 MiB, with each kind of tail; distinct_nontrivial = distinct (family, #records, tail kind, loop outcome, many outcome) tuples";
 pub const ASSUMPTIONS: &[&str] = &["the single-record parsers are the reference (they are judged by C02/C03/C10)"];
 
 #[derive(Clone, Copy, Debug, Hash, PartialEq, Eq)]
@@ -279,6 +279,116 @@ pub fn run(ctx: &mut Ctx) {
             if !good {
                 ctx.violation("c16:parse_dtls_plaintext_records:records-or-remainder-differ".into(), json!({"family": "size-coincidences", "buffer_len": buf.len(), "loop_records": n, "loop_consumed": off, "many": classify(&many).show()}));
             }
+        }
+    });
+
+    // volume: buffers of 1 MiB .. 64 MiB (thorough: 1 GiB) made ONLY of consecutive valid records, then a tail;
+    // the multi-record parsers must keep going exactly as long as the single-record parser does
+    const VOLS_Q: [usize; 8] = [1 << 20, 8 << 20, (10 << 20) - 20_000, (10 << 20) + 20_000, 16 << 20, (16 << 20) + 70_000, 32 << 20, 64 << 20];
+    const VOLS_T: [usize; 4] = [128 << 20, 256 << 20, 512 << 20, 1 << 30];
+    let nv = if ctx.tier == Tier::Thorough { VOLS_Q.len() + VOLS_T.len() } else { VOLS_Q.len() } as u64;
+    ctx.floor("volume.cases", 8 * 4);
+    ctx.sweep("volume", nv * 4, |ctx, idx| {
+        let mut r = crate::rng::Rng::new(idx ^ 0x7017_11E);
+        let vi = (idx / 4) as usize;
+        let vol = if vi < VOLS_Q.len() { VOLS_Q[vi] } else { VOLS_T[vi - VOLS_Q.len()] };
+        let dtls = idx % 2 == 1;
+        let full = (idx / 2) % 2 == 0; // maximum-size records only, or mixed sizes
+        let hdr_len = if dtls { 13 } else { 5 };
+        let mut buf = match gen::lazy_zeroed(vol + 40_000) {
+            Some(b) => b,
+            None => {
+                ctx.unjudged("volume-buffer-not-allocatable");
+                return;
+            }
+        };
+        let mut off = 0usize;
+        let mut n = 0usize;
+        while off < vol {
+            // TLS: application-data records (zero-copy); DTLS (no application data support): one handshake
+            // fragment per record (12-byte handshake header, then an opaque fragment)
+            let pl = if full { 16384 } else if dtls { *r.pick(&[16384usize, 16384, 16384, 13, 12, 4096, 16383]) } else { *r.pick(&[16384usize, 16384, 16384, 1, 0, 4096, 16383]) };
+            buf[off] = if dtls { 0x16 } else { 0x17 };
+            buf[off + 1] = if dtls { 0xfe } else { 3 };
+            buf[off + 2] = if dtls { 0xfd } else { 3 };
+            if dtls {
+                buf[off + 10] = (n >> 8) as u8; // sequence number
+                buf[off + 11] = (pl >> 8) as u8;
+                buf[off + 12] = pl as u8;
+                let h = off + 13;
+                buf[h] = 0x0b; // certificate
+                buf[h + 1] = 1; // total length 0x010000 > fragment length
+                buf[h + 5] = (n >> 4) as u8; // message_seq
+                let fl = pl - 12;
+                buf[h + 10] = (fl >> 8) as u8;
+                buf[h + 11] = fl as u8;
+            } else {
+                buf[off + 3] = (pl >> 8) as u8;
+                buf[off + 4] = pl as u8;
+            }
+            off += hdr_len + pl;
+            n += 1;
+        }
+        // tail: nothing / truncated record / oversized header / garbage
+        let tail_kind = (idx / 4 + idx) % 4;
+        let end = match tail_kind {
+            0 => off,
+            1 => {
+                buf[off] = if dtls { 0x16 } else { 0x17 };
+                buf[off + 1] = if dtls { 0xfe } else { 3 };
+                buf[off + 2] = if dtls { 0xfd } else { 3 };
+                buf[off + hdr_len - 2] = 0x40;
+                off + hdr_len + 100
+            }
+            2 => {
+                buf[off] = 0x17;
+                buf[off + hdr_len - 2] = 0xff;
+                buf[off + hdr_len - 1] = 0xff;
+                off + 70_000.min(buf.len() - off)
+            }
+            _ => {
+                for b in buf[off..off + 64].iter_mut() {
+                    *b = 0xff;
+                }
+                off + 64
+            }
+        };
+        buf.truncate(end);
+        ctx.eval();
+        ctx.count("volume.cases");
+        ctx.shape(&("volume", dtls, full, vol, tail_kind));
+        // reference: the single-record parser applied repeatedly
+        let (mut loff, mut ln) = (0usize, 0usize);
+        while loff < buf.len() {
+            let step = if dtls { parse_dtls_plaintext_record(&buf[loff..]).map(|(rem, _)| rem.len()) } else { parse_tls_plaintext(&buf[loff..]).map(|(rem, _)| rem.len()) };
+            match step {
+                Ok(rl) => {
+                    loff = buf.len() - rl;
+                    ln += 1;
+                }
+                Err(_) => break,
+            }
+        }
+        if (loff, ln) != (off, n) {
+            ctx.unjudged("volume: single-record loop did not consume the constructed records (C02/C10's business)");
+        }
+        let (name, got) = if dtls {
+            let m = parse_dtls_plaintext_records(&buf);
+            ("parse_dtls_plaintext_records", m.as_ref().ok().map(|(rem, v)| (v.len(), rem.len(), rem.as_ptr() as usize)))
+        } else {
+            let m = tls_parser_many(&buf);
+            ("tls_parser_many", m.as_ref().ok().map(|(rem, v)| (v.len(), rem.len(), rem.as_ptr() as usize)))
+        };
+        // no first record => the multi-record parser fails; otherwise the loop's records and remainder
+        let want = if ln == 0 { None } else { Some((ln, buf.len() - loff, buf[loff..].as_ptr() as usize)) };
+        if got != want {
+            ctx.violation(
+                format!("c16:{}:records-or-remainder-differ", name),
+                json!({"family": "volume", "buffer_len": buf.len(), "loop_records": ln, "loop_consumed": loff, "many_records": got.map(|g| g.0), "many_remainder_len": got.map(|g| g.1), "record_sizes": if full { "max" } else { "mixed" }, "tail": tail_kind}),
+            );
+        }
+        if ctx.wants_sample() {
+            ctx.sample(json!({"family": "volume", "parser": name, "buffer_len": buf.len(), "records": ln, "tail": tail_kind}));
         }
     });
 
